@@ -253,9 +253,6 @@ Proof.
   destruct (IH (Z.max x y)) as [A B]. split; [lia|]. constructor; [lia|exact B].
 Qed.
 
-(* the base actually used: `if start < base { start } else { base }` *)
-Definition set_min (S : list Z) : Z := match S with [] => 0 | x :: r => fold_left Z.min r x end.
-Definition adj_base (b : Z) (S : list Z) : Z := if set_min S <? b then set_min S else b.
 
 Lemma existsb_eqb_In x l : existsb (Z.eqb x) l = true <-> In x l.
 Proof.
